@@ -35,8 +35,10 @@ class SimProc:
         self._started = None
         self.stdout = plan.get("stdout", b"")
         self.stderr = plan.get("stderr", b"")
-        # children that outlive the shell (sub-profile "children")
+        # a script that starts a long-running child: SIGKILL to the shell alone leaves it running;
+        # only a signal to the whole process group (own session + killpg) takes it down
         self.children_alive = bool(plan.get("children"))
+        self.own_group = False
 
     # ---- what gwf calls ------------------------------------------------------
     async def communicate(self, input=None):
@@ -82,8 +84,18 @@ class SimProc:
     def alive(self):
         return self.phase == "ALIVE"
 
+    def group_signal(self, name):
+        """os.killpg on this process's own group: the shell and its children."""
+        if self.own_group:
+            self.children_alive = False
+        if self.phase != "CLOSED":
+            self._signal(name)
+
     def do_exit(self, code):
         assert self.phase == "ALIVE"
+        if code >= 0 or not self.sigkill:
+            # the script ended by itself: it waited for (or reaped) its children
+            self.children_alive = self.children_alive and bool(self.plan.get("children_detached"))
         self.phase = "EXITED"
         self.returncode = code
         self.exited_at = self.table.loop.time()
@@ -142,6 +154,7 @@ class ProcTable:
         pid = self.next_pid
         self.next_pid += 1
         proc = SimProc(self, pid, script, cwd, plan)
+        proc.own_group = bool(kw.get("start_new_session") or kw.get("process_group") == 0 or kw.get("preexec_fn"))
         self.procs[pid] = proc
         self.by_script.setdefault(script, []).append(proc)
         self.trace.log("spawn", pid=pid, script=script)
@@ -164,6 +177,32 @@ class ProcTable:
                 await fut
             raise
         return proc
+
+
+class OsProxy:
+    """Stands in for the name `os` inside gwf.backends.local if the module ever uses it to signal a
+    process group (it does not today): killpg/getpgid go to the ProcTable, everything else is real."""
+
+    def __init__(self):
+        self._table = None
+
+    def __getattr__(self, name):
+        import os
+
+        return getattr(os, name)
+
+    def getpgid(self, pid):
+        return pid
+
+    def killpg(self, pgid, sig):
+        t = self._table
+        p = t.procs.get(pgid) if t is not None else None
+        if p is None:
+            raise ProcessLookupError()
+        p.group_signal("KILL" if int(sig) == 9 else "TERM")
+
+
+OS_PROXY = OsProxy()
 
 
 class AsyncioProxy:
